@@ -1,14 +1,108 @@
-//! Operations for C16 (see ops.rs). Fill in: return Some(outcome) for the ops this module owns.
+//! Operations for C16 (see ops.rs): calendar-derived getters of PlainDate, rebuilding a date from calendar
+//! fields, with_calendar, calendar identifiers.
+//!
+//! Conventions of the projections used here:
+//!   * optional values (`era`, `era_year`) are 0/1-element arrays (`[]` = None), so TLC never sees a JSON null;
+//!   * strings the specification inspects character by character (month codes, identifiers) are arrays of
+//!     1-character strings (`p_chars`);
+//!   * the ISO date of a result is read through `iso_year/iso_month/iso_day`.
 use crate::js::{self, big, int};
 use crate::ops::{utc, FS};
 use crate::proj::*;
 use serde_json::{json, Value};
+use std::str::FromStr;
 use temporal_rs::options::*;
+use temporal_rs::partial::PartialDate;
 use temporal_rs::*;
 
-pub fn exec(op: &str, a: &Value) -> Option<Value> {
-    let _ = a;
-    match op {
-        _ => None,
+fn chars_to_string(v: &Value) -> String {
+    v.as_array().expect("array of chars").iter().map(|c| c.as_str().expect("char")).collect()
+}
+/// a calendar argument: a plain string, or an array of 1-character strings (when the spec must inspect the spelling)
+fn cal_of(a: &Value, k: &str) -> TemporalResult<Calendar> {
+    if a[k].is_array() { Calendar::from_str(&chars_to_string(&a[k])) } else { Calendar::from_str(js::s(a, k)) }
+}
+fn iso_date_in(a: &Value, cal: Calendar) -> TemporalResult<PlainDate> {
+    let d = &a["iso"];
+    PlainDate::try_new(js::i(d, "y") as i32, js::i(d, "m") as u8, js::i(d, "d") as u8, cal)
+}
+fn p_iso(d: &PlainDate) -> Value {
+    json!({"y": int(d.iso_year() as i64), "m": int(d.iso_month() as i64), "d": int(d.iso_day() as i64)})
+}
+
+/// every calendar-derived getter of the date
+pub fn p_fields(d: &PlainDate, with_era_name: bool) -> Value {
+    let mut v = json!({
+        "ey": d.era_year().map(|y| vec![int(y as i64)]).unwrap_or_default(),
+        "year": int(d.year() as i64),
+        "month": int(d.month() as i64),
+        "mc": p_chars(d.month_code().as_str()),
+        "day": int(d.day() as i64),
+        "doy": int(d.day_of_year() as i64),
+        "dim": int(d.days_in_month() as i64),
+        "diy": int(d.days_in_year() as i64),
+        "miy": int(d.months_in_year() as i64),
+        "leap": d.in_leap_year(),
+    });
+    if with_era_name {
+        v["era"] = json!(d.era().map(|e| vec![e.as_str().to_string()]).unwrap_or_default());
     }
+    v
+}
+
+fn partial_of(a: &Value) -> TemporalResult<PartialDate> {
+    let cal = cal_of(a, "cal")?;
+    let mut p = PartialDate::default();
+    p.calendar = cal;
+    if js::has(a, "year") { p.year = Some(js::i(a, "year") as i32); }
+    if js::has(a, "month") { p.month = Some(js::i(a, "month") as u8); }
+    if js::has(a, "mc") { p.month_code = Some(MonthCode::from_str(&chars_to_string(&a["mc"]))?); }
+    if js::has(a, "day") { p.day = Some(js::i(a, "day") as u8); }
+    if js::has(a, "era") {
+        // an alias longer than the field can hold cannot be passed at all: reported as the error the caller would see
+        p.era = Some(TinyAsciiStr::<19>::try_from_utf8(js::s(a, "era").as_bytes()).map_err(|_| TemporalError::range())?);
+    }
+    if js::has(a, "ey") { p.era_year = Some(js::i(a, "ey") as i32); }
+    Ok(p)
+}
+
+pub fn exec(op: &str, a: &Value) -> Option<Value> {
+    Some(match op {
+        // all getters of the date `iso` seen through calendar `cal`
+        "Cal.Day" => run(|| iso_date_in(a, cal_of(a, "cal")?), |d| p_fields(d, true)),
+        // the same without the era *name* (generated cases: names are judged as classes, see Cal.EraIn)
+        "Cal.Fields" => run(|| iso_date_in(a, cal_of(a, "cal")?), |d| p_fields(d, false)),
+        // is the reported era one of `names`?
+        "Cal.EraIn" => run(|| iso_date_in(a, cal_of(a, "cal")?), |d| {
+            let e = d.era().map(|e| e.as_str().to_string());
+            json!(a["names"].as_array().expect("names").iter().any(|n| Some(n.as_str().unwrap().to_string()) == e))
+        }),
+        // PlainDate::from_partial (or Calendar::date_from_partial with via = "calendar") -> ISO date + calendar id
+        "Cal.Rebuild" => run(|| {
+            let p = partial_of(a)?;
+            let ovf = arg_ovf(a);
+            if js::opt_s(a, "via") == Some("calendar") {
+                let c = p.calendar.clone();
+                c.date_from_partial(&p, ovf.unwrap_or(ArithmeticOverflow::Constrain))
+            } else {
+                PlainDate::from_partial(p, ovf)
+            }
+        }, |d| json!({"iso": p_iso(d), "id": d.calendar().identifier()})),
+        // date `iso` in calendar `from`, then with_calendar(`to`)
+        "Cal.WithCalendar" => run(|| {
+            let d = iso_date_in(a, cal_of(a, "from")?)?;
+            let e = d.with_calendar(cal_of(a, "to")?)?;
+            Ok((d, e))
+        }, |(d, e)| json!({"iso": p_iso(e), "id": e.calendar().identifier(), "cmp": p_ord(d.compare_iso(e))})),
+        // Calendar::from_str / from_utf8 of a spelling -> identifier(); and the identifier parsed again
+        "Cal.Id" => run(|| {
+            let s = chars_to_string(&a["s"]);
+            if js::opt_s(a, "via") == Some("utf8") { Calendar::from_utf8(s.as_bytes()) } else { Calendar::from_str(&s) }
+        }, |c| {
+            let id = c.identifier();
+            let again = match Calendar::from_str(id) { Ok(c2) => p_chars(c2.identifier()), Err(_) => json!(["?"]) };
+            json!({"id": p_chars(id), "again": again})
+        }),
+        _ => return None,
+    })
 }
